@@ -17,7 +17,7 @@ ASSUMPTIONS = ['matrix-level oracle |M_ref(q) - R|_max: Shepperd and Bar-Itzhack
                'not judged beyond, as in the statement',
                'result must be a real floating array of shape (4,), finite, | |q| - 1 | <= 1e-12',
                'Sarabandi is exercised with its default threshold and with threshold=0.5']
-REQUIRED_CLASSES = ['small-stacks', 'shepperd pivot 0', 'shepperd pivot 1', 'shepperd pivot 2', 'shepperd pivot 3', 'angle=0', 'angle=pi',
+REQUIRED_CLASSES = ['small-stacks', 'default-method', 'object-history', 'shepperd pivot 0', 'shepperd pivot 1', 'shepperd pivot 2', 'shepperd pivot 3', 'angle=0', 'angle=pi',
                     'angle<1e-6', 'pi-angle<1e-6', 'trace<=0']
 
 METHODS = [('shepperd', {}), ('hughes', {}), ('chiaverini', {}), ('itzhack', {'version': 1}), ('itzhack', {'version': 2}),
@@ -200,6 +200,70 @@ def job_sequences(ctx, k):
     ctx.sample({'sequence': ['sarabandi[threshold=3.0]', 'sarabandi(defaults)'], 'matrix': 'identity'})
 
 
+def job_defaults_and_objects(ctx, k):
+    """(1) The method argument OMITTED through the three dispatchers: the default method inverts q -> DCM on the whole grid, exact half-turns
+    included (the statement's clause about the default), and the array route returns the very rows the scalar routes return.
+    (2) Histories on ONE DCM object: convert, edit the returned array in place, convert again; update the matrix in place, convert again."""
+    from ahrs import Quaternion, QuaternionArray, DCM
+    M = matrices(k)
+    Rs = np.array([m[1] for m in M])
+    try:
+        QA = np.asarray(QuaternionArray(DCM=Rs.copy()), float)
+    except Exception as ex:
+        ctx.evals += 1
+        ctx.fail('QuaternionArray(DCM=all), method omitted: raises', 'R=<whole grid>', f'{type(ex).__name__}: {ex}'[:160], 'N quaternions')
+        QA = None
+    for i, (lab, R, ang) in enumerate(M):
+        outs = {}
+        for rn, fn in (('DCM.to_quaternion()', lambda: DCM(R.copy()).to_quaternion()), ('DCM.to_q()', lambda: DCM(R.copy()).to_q()), ('Quaternion(dcm=)', lambda: Quaternion(dcm=R.copy())),
+                       ('Quaternion.from_DCM', lambda: Quaternion().from_DCM(R.copy())), ('QuaternionArray(DCM=[R])', lambda: np.asarray(QuaternionArray(DCM=R.copy()[None]))[0]),
+                       ('QuaternionArray(DCM=all)[i]', (lambda: QA[i]) if QA is not None and QA.shape == (len(M), 4) else None)):
+            if fn is None:
+                continue
+            try:
+                q = np.asarray(fn(), float)
+            except Exception as ex:
+                ctx.evals += 1
+                ctx.fail(f'{rn}, method omitted: raises', f'R={lab}', f'{type(ex).__name__}: {ex}'[:160], 'a quaternion')
+                continue
+            _judge(ctx, q, R, ang, 'default', 'shepperd', rn + ' with the method omitted', lab)
+            outs[rn] = q
+        ref = outs.get('Quaternion(dcm=)')
+        if ref is not None and ref.shape == (4,):
+            for rn, q in outs.items():
+                ctx.evals += 1
+                if q.shape != (4,) or not float(np.abs(q - ref).max()) <= 1e-12:
+                    ctx.fail('method omitted: every dispatcher returns the same quaternion (same sign) as Quaternion(dcm=)', f'R={lab} route={rn}', q, ref, 1e-12)
+        ctx.seen(('default', lab))
+    ctx.cls('default-method')
+    # (2)
+    pick = [m for m in M if 0.3 < m[2] < math.pi - 0.3][::max(1, len(M) // 10)][:8]
+    for i, (lab, R, ang) in enumerate(pick):
+        lab2, R2, ang2 = pick[(i + 3) % len(pick)]
+        for meth, kw in METHODS:
+            mn = mname(meth, kw)
+            D = DCM(R.copy())
+            try:
+                q1 = D.to_quaternion(method=meth, **kw)
+                keep = np.array(q1, float, copy=True)
+                try:
+                    q1[1:] *= -1.0; q1 *= 2.0                     # the caller edits the array it was given
+                except Exception:
+                    pass
+                q2 = np.asarray(D.to_quaternion(method=meth, **kw), float)
+                ctx.evals += 1
+                if not np.array_equal(q2, keep):
+                    ctx.fail('DCM.to_quaternion: a second conversion is not affected by edits of the first returned array', f'R={lab} method={mn}', q2, keep, 0)
+                D[:] = R2                                           # the matrix updated in place (the object and .A share memory)
+                q3 = D.to_quaternion(method=meth, **kw)
+                _judge(ctx, q3, R2, ang2, mn, meth, 'DCM.to_quaternion after the matrix was updated in place', f'{lab}->{lab2}')
+            except Exception as ex:
+                ctx.evals += 1
+                ctx.fail('DCM object history raises', f'R={lab} method={mn}', f'{type(ex).__name__}: {ex}'[:160], 'completes')
+        ctx.cls('object-history')
+    ctx.sample({'default_method_routes': ['DCM.to_quaternion()', 'Quaternion(dcm=)', 'QuaternionArray(DCM=)']})
+
+
 def job_derived(ctx, k):
     """DCM objects that NumPy derives from other DCM objects (R.T, R1 @ R2, R.copy(), R[:], R.view(), np.transpose(R)) and short stacks of
     every small N: a conversion that ANSWERS gives the quaternion of the object's own matrix (a refusal is not judged)."""
@@ -273,5 +337,6 @@ def run(ctx):
         jobs.append(('job_options', (k,)))
         jobs.append(('job_sequences', (k,)))
         jobs.append(('job_derived', (k,)))
+        jobs.append(('job_defaults_and_objects', (k,)))
     core.run_jobs(ctx, __name__, jobs)
     ctx.notes['matrices_per_menu_entry'] = len(matrices(ks[0]))
